@@ -2,6 +2,7 @@ package engines
 
 // Registry maps engine names to entry points.
 var Registry = map[string]func(args []string){
-	"fid":   Fid,
-	"serve": Serve,
+	"fid":      Fid,
+	"serve":    Serve,
+	"stoprace": StopRace,
 }
